@@ -37,7 +37,7 @@ type MemCase struct {
 
 var (
 	memRecvs   = []string{"val", "ptr", "ptr", "elem", "mapval", "listval", "pfield", "ptrlist"}
-	memFields  = []string{"A", "B", "C", "D", "E", "F", "G", "H", "I"}
+	memFields  = []string{"A", "B", "C", "D", "E", "F", "G", "H", "I", "ID", "Tag", "ID", "Tag", "Base"}
 	valMethods = []string{"GetA", "Cat", "Sum", "Pair", "Triple", "Nothing", "Echo", "Mix"}
 	ptrMethods = []string{"SetA", "Bump", "Fill", "SetD"}
 	tPtrS      = reflect.PtrTo(tS)
